@@ -79,4 +79,4 @@ func vfC15RunNuma(c *vt.Ctx, s vfC15NumaScenario) {
 	}
 }
 
-func TestVerifC15NumaHints(t *testing.T) { vt.Run(t, vfC15GenNuma, vfC15RunNuma) }
+func TestVerifC15NumaHints(t *testing.T) { vt.Run(t, vfC15GenNuma, g.NoPanic(vfC15RunNuma)) }
